@@ -394,6 +394,15 @@ impl<'e> EventLoop<'e> {
             *pending = true;
             cvar.notify_one();
         }
+        // count this loop as started here, not in its thread: a stop() issued before the
+        // thread has got that far must still wait for the loop to drain and exit
+        {
+            let (lock, cvar) = &*self.shared_stop;
+            let started = lock.lock().expect("lock failed");
+            _ = started.fetch_add(1, Ordering::Release);
+            cvar.notify_one();
+        }
+        let shared_stop = self.shared_stop.clone();
         let thread_name = self.get_thread_name();
         let bean_name = self.name().to_string().leak();
         let bean_name_in_thread = self.name().to_string().leak();
@@ -408,12 +417,6 @@ impl<'e> EventLoop<'e> {
                     let consumer =
                         unsafe { BeanFactory::get_mut_bean::<Self>(bean_name_in_thread) }
                             .unwrap_or_else(|| panic!("bean {bean_name_in_thread} not exist !"));
-                    {
-                        let (lock, cvar) = &*consumer.shared_stop.clone();
-                        let started = lock.lock().expect("lock failed");
-                        _ = started.fetch_add(1, Ordering::Release);
-                        cvar.notify_one();
-                    }
                     // thread per core
                     info!(
                         "{} has started, bind to CPU:{}",
@@ -442,6 +445,13 @@ impl<'e> EventLoop<'e> {
                     }
                     Self::clean_current();
                     info!("{} has exited", consumer.name());
+                })
+                .inspect_err(|_| {
+                    // no thread, nothing to wait for
+                    let (lock, cvar) = &*shared_stop;
+                    let started = lock.lock().expect("lock failed");
+                    _ = started.fetch_sub(1, Ordering::Release);
+                    cvar.notify_one();
                 })?,
         );
         unsafe {
